@@ -165,6 +165,10 @@ def finite(rows):
 
 # --------------------------------------------------------------------------------------------- running
 MAX_CRASHES = 4
+# ... and over the whole run: a library that hangs in a routine every stream goes through costs 10 s per
+# abort; after this many aborts nothing more is run (the verdicts are in by then)
+MAX_TOTAL_CRASHES = 10
+TOTAL_CRASHES = [0]
 
 
 def run_impl(ctx, exe, cases, timeout=900, env=None, chunk=240, probes=None):
@@ -178,7 +182,7 @@ def run_impl(ctx, exe, cases, timeout=900, env=None, chunk=240, probes=None):
     results = [None] * len(cases)
     start = 0
     crashes = 0
-    while start < len(cases) and crashes < MAX_CRASHES:
+    while start < len(cases) and crashes < MAX_CRASHES and TOTAL_CRASHES[0] < MAX_TOTAL_CRASHES:
         end = min(len(cases), start + chunk)
         text = []
         for k, c in enumerate(cases[start:end]):
@@ -211,6 +215,7 @@ def run_impl(ctx, exe, cases, timeout=900, env=None, chunk=240, probes=None):
             start = end
             continue
         crashes += 1
+        TOTAL_CRASHES[0] += 1
         if cur is None:
             cur = start
         if cur >= end:
@@ -221,7 +226,8 @@ def run_impl(ctx, exe, cases, timeout=900, env=None, chunk=240, probes=None):
         start = cur + 1
     for i, x in enumerate(results):
         if x is None:
-            results[i] = {"skipped": True} if crashes >= MAX_CRASHES else {"crash": "no output for this case"}
+            results[i] = ({"skipped": True} if crashes >= MAX_CRASHES or TOTAL_CRASHES[0] >= MAX_TOTAL_CRASHES
+                          else {"crash": "no output for this case"})
     return results
 
 
@@ -644,7 +650,8 @@ def eval_methods(ctx, xexe, mexe, cases, stats):
             stats[key] = stats.get(key, 0) + 1
             # ---- model correspondence
             if m == "isomap":
-                ml = ["ISO %d %s" % (n, qtable(a["geo"])), "ISO %d %s" % (n, qtable(b["geo"]))]
+                ml = ["ISO %d %s" % (n, qtable(a["geo"])), "ISO %d %s" % (n, qtable(b["geo"])),
+                      "ISO23 %d %s" % (n, qtable(a["geo"])), "ISO23 %d %s" % (n, qtable(b["geo"]))]
             elif m == "mds":
                 ml = ["MDS %d %s" % (n, qtable(c["T"])), "MDS %d %s" % (n, qtable(Tp))]
             elif m == "kpca":
@@ -682,8 +689,19 @@ def eval_methods(ctx, xexe, mexe, cases, stats):
                 rlines.append(line)
                 rmap.append((ci, m, what))
     mout = run_model(ctx, mexe, mlines + rlines)
-    for k, (ci, m, Ha, Hb) in enumerate(mmap):
-        for o, Himpl, which in ((mout[2 * k], Ha, "input"), (mout[2 * k + 1], Hb, "image")):
+    mpos = 0
+    for ci, m, Ha, Hb in mmap:
+        outs = mout[mpos:mpos + (4 if m == "isomap" else 2)]
+        mpos += len(outs)
+        if m == "isomap":
+            alt = [parse_model_table(o) for o in outs[2:]]
+            if alt[0] == Ha and alt[1] == Hb and (parse_model_table(outs[0]) != Ha or parse_model_table(outs[1]) != Hb):
+                # the stage as it was before F23 (no symmetrisation of the squared geodesics): a different embedding
+                # (C04's subject) but a variant that is proved equivariant as well (isomap_pre_f23_equivariant)
+                stats["isomap_stage_equals_pre_f23_model"] = stats.get("isomap_stage_equals_pre_f23_model", 0) + 1
+                evals += 2
+                continue
+        for o, Himpl, which in ((outs[0], Ha, "input"), (outs[1], Hb, "image")):
             Hm = parse_model_table(o)
             if Hm is None:
                 raise vlib.BuildError("model driver returned a malformed table")
@@ -1720,6 +1738,10 @@ def run(ctx):
     n += eval_nbr(ctx, eexe, cnb + nbr, stats, hist)
     t_meta = ctx.elapsed()
     n += eval_history(ctx, eexe, chi + history, stats, hist)
+    if stats.get("isomap_stage_equals_pre_f23_model"):
+        ctx.note("the Isomap stage inside embed() equals the model of the code BEFORE F23 (squared geodesics not "
+                 "symmetrised) in %d recordings: not C12's subject, that variant is proved equivariant too "
+                 "(isomap_pre_f23_equivariant); see property C04" % stats["isomap_stage_equals_pre_f23_model"])
     stats["build_phases"] = phase_times
     stats["seconds"] = {"build+proofs+translator": round(t_build, 1), "exact": round(t_exact - t_build, 1),
                         "meta": round(t_meta - t_exact, 1), "history": round(ctx.elapsed() - t_meta, 1)}
